@@ -54,6 +54,9 @@ def run(modname, fname, kwargs, trace=False):
     import traceback
     ok = False
     err = ''.join(traceback.format_exception(type(e), e, e.__traceback__)[-8:])
+    tb = traceback.extract_tb(e.__traceback__)
+    if isinstance(e, (ImportError, NotImplementedError)) and tb and tb[-1].filename.startswith('/verif'):
+      ok = None          # the harness itself is broken: infrastructure error, never a violation
   finally:
     sys.settrace(None)
   return {'ok': None if ok is None else bool(ok is True or (ok is not False and ok)), 'error': err,
